@@ -223,7 +223,13 @@ def gen_ic_boundary(rng):
     return L
 
 
-def gen_db(rng, long=False):
+BIG_BLKS = [2 ** 31 - 1, 2 ** 31, 2 ** 31 + 52, 2 ** 32 - 1, 2 ** 32, 2 ** 32 + 4, 2 ** 32 + 5, 2 ** 33 + 7, 3 * 2 ** 31 + 1, 2 ** 40 + 3]
+
+
+def gen_db(rng, long=False, big=None):
+    """big: block numbers beyond 2^31 (file systems larger than 8 TiB at 4 KiB blocks); the legacy 32-bit sort / iterate are
+    left out there (their callback type cannot carry such a block number)"""
+    big = (rng.random() < 0.3) if big is None else big
     ndirs = rng.choice([0, 0, 1, 3])
     size = 2 * ndirs + 12
     L = ["reset db %d 4096" % ndirs]
@@ -232,23 +238,26 @@ def gen_db(rng, long=False):
     added = []
     nops = nadds + (rng.randint(8, 20) if not long else rng.randint(20, 40))
     na = 0
+
+    def blkno():
+        if rng.random() < 0.2: return 0
+        if big and rng.random() < 0.5: return rng.choice(BIG_BLKS) + rng.choice([0, 0, 1, 7])
+        return rng.randint(1, 400)
     for _ in range(nops):
         x = rng.random()
         if na < nadds and x < (0.62 if not long else 0.88):
             ino = rng.choice(inos); cnt = rng.randint(0, 6)
-            blk = 0 if rng.random() < 0.2 else rng.randint(1, 400)
-            L.append("db add %d %d %d" % (ino, blk, cnt)); added.append((ino, cnt)); na += 1
+            L.append("db add %d %d %d" % (ino, blkno(), cnt)); added.append((ino, cnt)); na += 1
         elif x < 0.70 and added:
             ino, cnt = rng.choice(added) if rng.random() < 0.85 else (rng.choice(inos), 9)
-            L.append("db set %d %d %d" % (ino, rng.randint(1, 400), cnt))
-        elif x < 0.76: L.append("db sort %d" % rng.choice([0, 0, 1, 2]))
+            L.append("db set %d %d %d" % (ino, blkno() or 1, cnt))
+        elif x < 0.76: L.append("db sort %d" % rng.choice([0, 0, 1] if big else [0, 0, 1, 2]))
         elif x < 0.84:
             L.append("db iter %d %d" % (rng.choice([0, 0, rng.randint(0, 20)]), rng.choice([1000, 1000, rng.randint(0, 20)])))
-        elif x < 0.87: L.append("db iter32")
+        elif x < 0.87: L.append("db iter 0 1000" if big else "db iter32")
         elif x < 0.90: L.append("db count")
         elif x < 0.93: L.append("db last")
-        elif x < 0.97:
-            L.append("db drop")
+        elif x < 0.97: L.append("db drop")
         else: L.append("db copy")
     L.append("db iter 0 100000")
     return L
@@ -491,8 +500,9 @@ def run(b, ev, vd, tier, work, rng):
              "bb: a successful delete; rg: a merge of two intervals)",
         checker_cmd="TRACE=<chunk> tlc -workers 1 -config spec/Trace_Containers.cfg spec/Trace_Containers.tla (POSTCONDITION TraceAccepted, INVARIANT CStructural, CRefines, CResultsAgree)")
     ev.assumptions += [
-        "containers: keys / inode numbers / block numbers stay below 2^31 (TLC integers; dblist's comparators return differences truncated to int)",
+        "containers: keys, inode numbers, counts and blockcnt stay below 2^31 (TLC integers); dblist block numbers go up to 2^40 (logged as two numbers)",
         "containers: ea_refcount keys are >= 1 (0 is the end marker of ea_refcount_intr_next) and nothing is called between intr_begin and the last intr_next (pass1.c)",
+        "containers: the legacy 32-bit dblist entry points (ext2fs_dblist_sort, ext2fs_dblist_iterate) are used only on lists whose block numbers fit 32 bits",
         "containers: dblist callers address with set_dir_block an <<ino, blockcnt>> they added once; with duplicates the first element in array order changes (modelled literally)",
         "containers: memory allocation does not fail; the tdb variant of icount is not modelled",
         "containers: the observation after every call (fetch of every key, enumeration) runs with the look-up cursor saved and restored",
